@@ -111,7 +111,7 @@ MutSnapshotLive(g) ==
 MutClaimRacy(g) ==
   /\ Mutant = "noclaim" /\ PubAt(g, "claim")
   /\ LET f == Top(g)  r == f.snap[f.i] IN
-       /\ SetTop(g, [f EXCEPT !.pc = "dispatch", !.retire = @ \cup {r}])
+       /\ SetTop(g, [f EXCEPT !.pc = "dispatch", !.retire = @ \cup {r}, !.claimed = @ \cup {r}])
        /\ fired' = fired \cup {r}
        /\ UNCHANGED gh
   /\ \E g2 \in Gs : g2 # g /\ stack[g2] # <<>> /\ Top(g2).k = "pub"
@@ -129,7 +129,15 @@ MutNoMutex(g) ==
   /\ Mutant = "nomutex" /\ InvAt(g, "lock")
   /\ SetTop(g, [Top(g) EXCEPT !.pc = "enter"])
   /\ UNCHANGED <<cfg, reg, attr, fired, seqHolder, cancelled, closed, pubs, npub, gh>>
-Mutants == \E g \in Gs : MutSnapshotLive(g) \/ MutClaimRacy(g) \/ MutWaitEarly(g) \/ MutNoMutex(g)
+\* "claimfirst": the Once claim is taken before the context is looked at (ebu before the fix of defect D1)
+MutClaimFirst(g) ==
+  /\ Mutant = "claimfirst" /\ PubAt(g, "claim")
+  /\ LET f == Top(g)  r == f.snap[f.i] IN
+       /\ r \notin fired /\ IsCancelled(f.ctx)
+       /\ fired' = fired \cup {r}
+       /\ SetTop(g, [f EXCEPT !.pc = "dispatch", !.retire = @ \cup {r}, !.claimed = @ \cup {r}])
+  /\ UNCHANGED <<cfg, reg, attr, seqHolder, cancelled, closed, pubs, npub, gh>>
+Mutants == \E g \in Gs : MutSnapshotLive(g) \/ MutClaimRacy(g) \/ MutWaitEarly(g) \/ MutNoMutex(g) \/ MutClaimFirst(g)
 
 Internal == \E g \in Gs : InternalStep(g)
 
